@@ -75,6 +75,10 @@ func (d *Deduplicator) IsDuplicate(m *message.Message) (bool, error) {
 	if err != nil {
 		return false, err
 	}
+	return d.isDuplicateKey(m, key)
+}
+
+func (d *Deduplicator) isDuplicateKey(m *message.Message, key string) (bool, error) {
 	ctx, cancel := context.WithTimeout(m.Context(), d.Timeout)
 	defer cancel()
 	return d.Repository.IsDuplicate(ctx, key)
@@ -281,8 +285,19 @@ func (d *deduplicatingPublisherDecorator) Publish(
 	notRecent := make([]*message.Message, 0, len(messages))
 	isDuplicate := false
 
-	for _, m := range messages {
-		isDuplicate, err = d.deduplicator.IsDuplicate(m)
+	// Hash the whole batch before any key is recorded: when a message cannot be hashed
+	// the batch is rejected and nothing is published, so the keys of the messages
+	// in front of it must not be remembered, or their retry would be dropped as a duplicate.
+	keys := make([]string, len(messages))
+	for i, m := range messages {
+		keys[i], err = d.deduplicator.KeyFactory(m)
+		if err != nil {
+			return err
+		}
+	}
+
+	for i, m := range messages {
+		isDuplicate, err = d.deduplicator.isDuplicateKey(m, keys[i])
 		if err != nil {
 			return err
 		}
